@@ -235,11 +235,13 @@ def gen_wait(rng, count, tag, panic=0.03):
     return out
 
 
-def gen_groups(rng, count, tag, kinds=("fgroup", "fgroup_keyed", "sgroup", "sgroup_keyed"), maxops=30, panic=0.03, long=False):
+def gen_groups(rng, count, tag, kinds=("fgroup", "fgroup_keyed", "sgroup", "sgroup_keyed"), maxops=30, panic=0.03, long=False, big=False):
     """long: a group with a long life - up to 200 operations (many rounds of insert / complete / remove: slab keys reused over and over), member
        streams of up to 40 steps, drained at the end"""
     if long:
         maxops = 200
+    """big: a group holding 66 .. 130 members at once (beyond the inline capacities of the waker / readiness containers and one 64-bit block of the
+       readiness set), inserted one by one so that their keys are known; then the usual operations; drained at the end"""
     out = []
     for c in range(count):
         comb = rng.choice(kinds)
@@ -247,9 +249,9 @@ def gen_groups(rng, count, tag, kinds=("fgroup", "fgroup_keyed", "sgroup", "sgro
         ops = []
         nm = 0
         extborn = set()
-        drain = long or rng.random() < 0.15       # members wake themselves, the history ends with polls until the group is empty (and a few more)
-        lm = {"maxlen": 40} if long else {}
-        fs = (lambda rng, n, i, tryj, panic: fscript(rng, n, i, tryj, drain=True, **({"maxlen": 12} if long else {}))) if drain else fscript
+        drain = long or big or rng.random() < 0.15       # members wake themselves, the history ends with polls until the group is empty (and a few more)
+        lm = {"maxlen": 40} if long else ({"maxlen": 2} if big else {})
+        fs = (lambda rng, n, i, tryj, panic: fscript(rng, n, i, tryj, drain=True, **({"maxlen": 12} if long else ({"maxlen": 2} if big else {})))) if drain else fscript
         ss = (lambda rng, n, i, panic: sscript(rng, n, i, drain=True, **lm)) if drain else sscript
         if cap == 0 and rng.random() < 0.12:
             # FromIterator: the group is collected from an iterator of members (keys unknown, like extend)
@@ -258,6 +260,12 @@ def gen_groups(rng, count, tag, kinds=("fgroup", "fgroup_keyed", "sgroup", "sgro
             ops.append("iter(" + ";".join(mk(j) for j in range(k)) + ")")
             extborn.update(range(k))
             nm = k
+        if big:
+            for _ in range(rng.choice([66, 70, 100, 130])):
+                ops.append("ins(" + (fs(rng, max(nm, 1), nm, False, panic) if comb.startswith("f") else ss(rng, max(nm, 1), nm, panic)) + ")")
+                nm += 1
+                if rng.random() < 0.05:
+                    ops.append("p")
         for _ in range(rng.randint(60 if long else 2, maxops)):
             r = rng.random()
             if r < (0.12 if long else 0.28):
@@ -298,7 +306,7 @@ def gen_groups(rng, count, tag, kinds=("fgroup", "fgroup_keyed", "sgroup", "sgro
         if drain:
             ops = [o for o in ops if o != "d"]
             steps = sum(o.count(",") + o.count(";") + 1 for o in ops if o[:4] in ("ins(", "ext(", "iter"))
-            ops += ["p"] * ((steps if long else min(steps, 40)) + 3)
+            ops += ["p"] * ((steps if (long or big) else min(steps, 40)) + 3)
         out.append(f"{tag}{c} {comb} group n={cap}  | {' '.join(ops)}")
     return out
 
@@ -437,7 +445,7 @@ def gen_co(rng, count, tag, terms=("fe", "tfe", "col"), stacks=None, drop=0.015,
         n = rng.randint(30, 90) if large else rng.randint(0, 5)       # large: sources of many items (nothing in the crate may depend on a source being short)
         nc = 1 + 2 * n
         take = ",".join(str(rng.randint(0, n + 1)) for _ in range(stack.count("take"))) if "take" in stack else "-"
-        lim = ",".join(str(rng.choice([0, 1, 1, 2, 3])) for _ in range(stack.count("lim"))) if "lim" in stack else "-"
+        lim = ",".join(str(rng.choice([0, 1, 2, 3, 4, 5, 8, 16, 32, 64] if large else [0, 1, 1, 2, 3])) for _ in range(stack.count("lim"))) if "lim" in stack else "-"
 
         def cf():
             f = []
